@@ -138,7 +138,25 @@ fn probe(bytes: &[u8], st: &mut Stats) -> bool {
     }
 }
 
-fn authentic_messages(seed: u64) -> Result<Vec<(String, Vec<u8>)>, String> {
+/// vector-of-optional-nodes bytes with `k` blank nodes (one 0x00 byte each) appended and the length header adjusted
+pub fn append_blank_nodes(tree: &[u8], k: usize) -> Option<Vec<u8>> {
+    let f = *tree.first()?;
+    let (len, hdr) = match f >> 6 {
+        0 => ((f & 0x3f) as usize, 1),
+        1 => ((((f & 0x3f) as usize) << 8) | *tree.get(1)? as usize, 2),
+        2 => ((((f & 0x3f) as usize) << 24) | ((*tree.get(1)? as usize) << 16) | ((*tree.get(2)? as usize) << 8) | *tree.get(3)? as usize, 4),
+        _ => return None,
+    };
+    if hdr + len != tree.len() { return None; }
+    let n = len + k;
+    let mut o = vec![];
+    if n < 64 { o.push(n as u8); } else if n < 16384 { o.extend_from_slice(&((n as u16) | 0x4000).to_be_bytes()); } else { o.extend_from_slice(&((n as u32) | 0x8000_0000).to_be_bytes()); }
+    o.extend_from_slice(&tree[hdr..]);
+    o.extend(std::iter::repeat(0u8).take(k));
+    Some(o)
+}
+
+fn authentic_messages(seed: u64, viols: &mut Vec<Value>) -> Result<Vec<(String, Vec<u8>)>, String> {
     let mut out: Vec<(String, Vec<u8>)> = vec![];
     for enc in [false, true] {
         let mut opts = Opts::default();
@@ -170,6 +188,19 @@ fn authentic_messages(seed: u64) -> Result<Vec<(String, Vec<u8>)>, String> {
             let back = mls_rs::group::ExportedTree::from_bytes(&tb).map_err(e)?;
             if back.to_bytes().map_err(e)? != tb {
                 return Err("exported tree does not round-trip".into());
+            }
+            // a well-formed node vector that ends in blank nodes: decoding fails, or yields a value that re-encodes
+            // to exactly the bytes consumed
+            for k in 1..=3usize {
+                if let Some(padded) = append_blank_nodes(&tb, k) {
+                    if let Ok(t2) = mls_rs::group::ExportedTree::from_bytes(&padded) {
+                        match t2.to_bytes() {
+                            Ok(re) if re == padded => {}
+                            Ok(re) => viols.push(json!({"kind": "reencode-differs", "what": format!("ExportedTree::from_bytes accepts {} bytes (a tree with {k} trailing blank nodes) and re-encodes to {} bytes", padded.len(), re.len()), "input": hex::encode(&padded)})),
+                            Err(x) => viols.push(json!({"kind": "reencode-fails", "what": format!("accepted exported tree cannot be encoded: {x:?}"), "input": hex::encode(&padded)})),
+                        }
+                    }
+                }
             }
         }
         for (i, n) in ["p2", "p3"].iter().enumerate() {
@@ -228,7 +259,9 @@ pub fn dump(out: &str, seed: u64, mutants_per_msg: usize, alphabet_len: usize) -
         st.enc += 1;
     }
     // 3. messages: authentic and mutated
-    let msgs = authentic_messages(seed)?;
+    let mut tree_viols: Vec<Value> = vec![];
+    let msgs = authentic_messages(seed, &mut tree_viols)?;
+    st.viols.extend(tree_viols);
     for (kind, bytes) in msgs.iter() {
         *st.kinds.entry(kind.clone()).or_insert(0) += 1;
         st.authentic += 1;
